@@ -23,7 +23,7 @@ func init() {
 		},
 		Rules: []RuleDef{
 			{Name: "C07-VIS", Floor: 10, Doc: "member lookups from outside reach their use only through a modifier test", Run: c07Run},
-			{Name: "C07-PRIV", Floor: 2, Doc: "private and protected are decided by different predicates", Run: nop},
+			{Name: "C07-PRIV", Floor: 1, Doc: "private and protected are decided by different predicates", Run: nop},
 			{Name: "C07-TYPE", Floor: 3, Doc: "typed boundaries consult Types.Is", Run: nop},
 			{Name: "C07-REJECT", Floor: 5, Doc: "on a path where the declared type's Is(value) answered false, the boundary neither stores nor returns successfully (unless a later Is on the value answers true)", Run: nop},
 			{Name: "C07-PRED", Floor: 1, Doc: "the visibility predicate grants access only on an identity between one party itself (caller class, bound scope, or target class) and a member of the other's extends chain", Run: nop},
@@ -129,8 +129,16 @@ func c07Run(r *Run) {
 	// control; an access-path type is "gated" when an evaluation entry of it tests such a gate's result
 	gates := map[types.Object]bool{}
 	for _, fd := range funcDecls(npkg) {
-		if fd.Recv != nil || fd.Type.Results == nil {
+		if fd.Type.Results == nil {
 			continue
+		}
+		// functions, and methods of helper types (a declaration-lookup result, a table entry); the
+		// evaluation entries of the access nodes themselves are not gates
+		switch fd.Name.Name {
+		case "GetValue", "SetValue", "GetZVal", "SetProperty":
+			if fd.Recv != nil {
+				continue
+			}
 		}
 		sig, ok := info.Defs[fd.Name].Type().(*types.Signature)
 		if !ok || sig.Results().Len() != 1 || !isNamed(sig.Results().At(0).Type(), dataPath, "Control") {
@@ -578,6 +586,36 @@ func c07Run(r *Run) {
 	sort.Strings(names)
 	r.stat("access_path_node_types", len(names))
 
+	// a gate that receives the modifier as a value (table-driven form): one predicate call decides for
+	// every restricted modifier, so private and protected cannot differ
+	for _, fd := range funcDecls(npkg) {
+		if fd.Body == nil || fd.Type.Params == nil {
+			continue
+		}
+		takesModifier := false
+		for _, f := range fd.Type.Params.List {
+			if isNamed(info.TypeOf(f.Type), dataPath, "Modifier") {
+				takesModifier = true
+			}
+		}
+		if !takesModifier {
+			continue
+		}
+		called := map[string]bool{}
+		ast.Inspect(fd.Body, func(m ast.Node) bool {
+			if c, ok := m.(*ast.CallExpr); ok {
+				if f, ok := calleeOf(info, c).(*types.Func); ok && f.Pkg() == npkg.Types && isVisibilityPredicate(f, dataPath) {
+					called[f.Name()] = true
+				}
+			}
+			return true
+		})
+		if len(called) == 1 {
+			for p := range called {
+				arms = append(arms, privArm{fk: funcKey(npkg, fd), pos: fd.Pos(), privP: p, protP: p})
+			}
+		}
+	}
 	r.curRule = "C07-PRIV"
 	for _, a := range arms {
 		key := a.fk + "#private-vs-protected"
@@ -693,6 +731,14 @@ func c07Run(r *Run) {
 		}
 		if a.protP != "" {
 			preds[a.protP] = true
+		}
+	}
+	if len(preds) == 0 {
+		// no modifier chain names a predicate: take the visibility predicates by role
+		for _, fd := range funcDecls(npkg) {
+			if f, ok := info.Defs[fd.Name].(*types.Func); ok && fd.Recv == nil && isVisibilityPredicate(f, dataPath) {
+				preds[f.Name()] = true
+			}
 		}
 	}
 	c07Pred(r, npkg, preds)
@@ -1365,4 +1411,17 @@ func c07Validates(r *Run, npkg *packages.Package, fd *ast.FuncDecl) {
 			r.bad(key, c.pos, "the object is created on a path on which the inherited abstract methods were not validated (validation skipped, or skipped under a flag that is set before the validation has succeeded)")
 		}
 	}
+}
+
+// isVisibilityPredicate: a bool-answering function of (data.Context, data.ClassStmt) — "may the code
+// running in this context see a member of that class".
+func isVisibilityPredicate(f *types.Func, dataPath string) bool {
+	sig, ok := f.Type().(*types.Signature)
+	if !ok || sig.Recv() != nil || sig.Results().Len() != 1 || sig.Params().Len() != 2 {
+		return false
+	}
+	if b, ok := sig.Results().At(0).Type().Underlying().(*types.Basic); !ok || b.Kind() != types.Bool {
+		return false
+	}
+	return isNamed(sig.Params().At(0).Type(), dataPath, "Context") && isNamed(sig.Params().At(1).Type(), dataPath, "ClassStmt")
 }
